@@ -9,11 +9,14 @@
   `allowed_padding_packets`, or both its own padding fraction and the framework-wide padding
   fraction are below their limits (if set; a fraction over zero packets counts as below).
   The fraction comparison in `padOKF`/`belowF` is the one the code performs (double division of
-  the two counts, `>=` against the limit). The monitor run on the implementation uses the exact
-  rational comparison `C02.padOK`; the two agree whenever the counts are below 2^53 because IEEE
-  rounding is monotone and the identity on representable values (the limit is a double).
+  the two counts, `>=` against the limit). `C02_exact` turns it into the exact rational comparison
+  of the specification `C02.padOK` (the monitor run on the implementation) for histories with
+  fewer than 2^53 reported packets: IEEE rounding is monotone and the identity on representable
+  values (the counts convert exactly, the limit is a double), so the double comparison is at
+  least as strict as the exact one.
 -/
 import MbVerif.Proofs.C02
+import MbVerif.Proofs.C02Exact
 
 namespace Mb.C02
 open Mb
@@ -82,6 +85,31 @@ theorem C02_single (ms : List Machine) (fp fb : F64) (t0 : Int) (rng : σ) (h : 
   simp only [QPad] at hq
   rw [hra, hp', hn', hgp, hgn, hgf] at hq
   simpa using hq
+
+/-- Exact-arithmetic form: with fewer than 2^53 reported packets, a SendPadding returned by a
+    single-event call satisfies the specification `C02.padOK` in exact rational arithmetic. -/
+theorem C02_exact (ms : List Machine) (fp fb : F64) (t0 : Int) (rng : σ) (h : List Call) (e : TEvent) (t : Int)
+    (hsmall : (events h ++ [e]).length < 2 ^ 53) :
+    ∀ tmo b r mi, TAction.sendPadding tmo b r mi ∈
+        (triggerEvents ρ [e] t (runCalls ρ (Fw.init ρ ms fp fb t0 rng) h)).actionsOut →
+      ∃ m, ms[mi]? = some m ∧
+        padOK m fp (countPad mi (events h ++ [e])) (countNormal (events h ++ [e])) (countPadAll (events h ++ [e])) = true := by
+  intro tmo b r mi hmem
+  obtain ⟨m, hm, hok⟩ := C02_single ρ ms fp fb t0 rng h e t tmo b r mi hmem
+  refine ⟨m, hm, ?_⟩
+  generalize hev : events h ++ [e] = evs at hok hsmall
+  have hdisj := counts_le mi evs
+  unfold padOK
+  unfold padOKF at hok
+  simp only [Bool.or_eq_true, Bool.and_eq_true, decide_eq_true_eq]
+  rcases hok with hb | ⟨h1, h2⟩
+  · exact Or.inl hb
+  · right
+    constructor
+    · have hh := below_exact (countPad mi evs) (countNormal evs + countPad mi evs) m.maxPaddingFrac
+        (by omega) (by omega) h1
+      rwa [Nat.add_comm] at hh
+    · exact below_exact (countPadAll evs) (countPadAll evs + countNormal evs) fp (by omega) (by omega) h2
 
 /-- Non-vacuity of the setting: the initial accounting state of a one-machine framework. -/
 example : (Acct.ofFw (Fw.init0 (σ := Unit)
